@@ -13,5 +13,5 @@ for d in $INC/*/; do
     echo "$P-$TAG$k $patch $P"
   done
 done > /tmp/confirm/matrix_todo.txt
-cat /tmp/confirm/matrix_todo.txt | xargs -P 3 -L 1 bash -c 'out=$(tools/try_mutant_wt.sh $1 $2 2>&1); echo "$out" > /tmp/confirm/matrix/$0.$2.log; echo "$out" | tail -1 | sed "s/exit=//" > /tmp/confirm/matrix/$0.$2.rc'
+cat /tmp/confirm/matrix_todo.txt | xargs -P ${PAR:-2} -L 1 bash -c 'out=$(tools/try_mutant_wt.sh $1 $2 2>&1); echo "$out" > /tmp/confirm/matrix/$0.$2.log; echo "$out" | tail -1 | sed "s/exit=//" > /tmp/confirm/matrix/$0.$2.rc'
 echo MATRIX_DONE
